@@ -368,6 +368,52 @@ func init() {
 			}
 		}
 		f.boolFact("txDiscardGuardFirst", guardFirst)
+		// C16: every access to the shared accumulators of the ingest worker pool lies inside the mutex,
+		// and the error channel has room for every worker
+		ib := f.funcDecl("pkg/ingest/inserter.go", "Inserter", "insertBlock")
+		guardedAll, sawShared := true, false
+		if ib != nil {
+			ast.Inspect(ib.Body, func(n ast.Node) bool {
+				bl, ok := n.(*ast.BlockStmt)
+				if !ok {
+					return true
+				}
+				depth := 0
+				for _, st := range bl.List {
+					src := f.src(st)
+					if _, isFor := st.(*ast.RangeStmt); isFor {
+						continue // inspected separately (its body is another block)
+					}
+					if strings.HasPrefix(src, "i.mutex.Lock()") {
+						depth++
+						continue
+					}
+					if strings.HasPrefix(src, "i.mutex.Unlock()") {
+						depth--
+						continue
+					}
+					if strings.Contains(src, "i.rowsCount") || strings.Contains(src, "i.asyncBlocks") {
+						sawShared = true
+						if depth <= 0 && !strings.Contains(src, "atomic.") {
+							guardedAll = false
+						}
+					}
+				}
+				return true
+			})
+		}
+		f.boolFact("ingestSharedAccessGuarded", sawShared && guardedAll)
+		itb := f.funcDecl("pkg/ingest/inserter.go", "Inserter", "ingestTableFromBlocks")
+		capOK := false
+		if itb != nil {
+			ast.Inspect(itb.Body, func(n ast.Node) bool {
+				if c, ok := n.(*ast.CallExpr); ok && f.src(c.Fun) == "make" && len(c.Args) == 2 && f.src(c.Args[0]) == "chan error" {
+					capOK = f.src(c.Args[1]) == "i.numWorkers"
+				}
+				return true
+			})
+		}
+		f.boolFact("ingestErrChanHoldsAllWorkers", capOK)
 		// C06: packfile header bit count
 		eh := f.funcDecl("pkg/encoding/packfile/packfile.go", "", "encodeObjTypeAndLen")
 		bt := f.declType(eh, "bits")
